@@ -1,10 +1,625 @@
-import Irc.Inv
-import Irc.Lemmas.Frame
-namespace Irc.C04
-open Irc
+/-
+  C04 — "The members of every channel, as reported by NAMES, WHO and WHOIS to a client entitled to see
+  them, are exactly the users who joined successfully and have not since parted, been kicked or
+  disconnected, under their current nicknames; the three views always agree with each other.  Every
+  membership change made by JOIN, PART, KICK or NICK is announced to all members of the channel, the
+  departing user included ..."
 
-/-- first obligation (the full theorem list of this property is added as the
-    invariant-preservation proofs land): the initial world has no users. -/
-theorem init_no_users (cfg : Cfg) : (World.init cfg).users = [] := rfl
+  This file: the membership relation itself (one symmetric relation, mirrored rank lists), its
+  history (exact effect of JOIN / PART / KICK / NICK / disconnect), and the three views.
+  Helper lemmas: Irc/Props/InvPropsLemmas.lean.
+-/
+import Irc.Props.InvPropsLemmas
+
+namespace Irc.C04
+open Irc Reply
+
+/-! ### 1. the membership relation -/
+
+/-- `n` is a member of channel `ch` (read off the channel's member map) -/
+def Member (w : World) (ch n : Str) : Prop := w.memOf ch n = true
+
+instance (w : World) (ch n : Str) : Decidable (Member w ch n) := by unfold Member; infer_instance
+
+theorem member_iff (w : World) (ch n : Str) :
+    Member w ch n ↔ ∃ C, Map.lookup ch w.channels = some C ∧ n ∈ Map.keys C.users := by
+  unfold Member
+  rw [Memb.World.memOf_iff]
+  simp only [Map.mem_keys_iff, Map.contains_iff]
+
+/-- the two sides of the relation agree: a user's channel set lists `ch` iff `ch`'s member map lists
+    the user -/
+theorem membership_symmetric {w : World} (h : InvCore w) {n : Str} {u : User}
+    (hu : Map.lookup n w.users = some u) (ch : Str) : ch ∈ u.channels ↔ Member w ch n := by
+  unfold Member
+  rw [Memb.World.memOf_iff, ← KSet.mem_iff]
+  exact h.memberSym n u ch hu
+
+/-- every member is a registered user (under its current nickname), and that user lists the channel -/
+theorem members_are_users {w : World} (h : InvCore w) {ch n : Str} (hm : Member w ch n) :
+    ∃ u, Map.lookup n w.users = some u ∧ ch ∈ u.channels := by
+  obtain ⟨C, hC, hc⟩ := (Memb.World.memOf_iff w ch n).mp hm
+  obtain ⟨u, hu⟩ := (Map.contains_iff _ _).mp (h.memberIsUser ch C n hC hc)
+  exact ⟨u, hu, (membership_symmetric h hu ch).mpr hm⟩
+
+/-- nobody is listed twice, on either side -/
+theorem no_duplicates {w : World} (h : InvCore w) :
+    (∀ ch C, Map.lookup ch w.channels = some C → (Map.keys C.users).Nodup) ∧
+    (∀ n u, Map.lookup n w.users = some u → u.channels.Nodup) ∧
+    (Map.keys w.channels).Nodup ∧ (Map.keys w.users).Nodup :=
+  ⟨h.membersNodup, h.userChansNodup, h.chansNodup, h.usersNodup⟩
+
+/-- the five rank lists of a channel are exactly the members carrying the corresponding flag -/
+theorem rank_lists_mirror_flags {w : World} (h : InvCore w) {ch : Str} {C : Channel}
+    (hC : Map.lookup ch w.channels = some C) (n : Str) :
+    (n ∈ C.modes.founders ↔ ∃ m, Map.lookup n C.users = some m ∧ m.founder = true) ∧
+    (n ∈ C.modes.protecteds ↔ ∃ m, Map.lookup n C.users = some m ∧ m.prot = true) ∧
+    (n ∈ C.modes.operators ↔ ∃ m, Map.lookup n C.users = some m ∧ m.operator = true) ∧
+    (n ∈ C.modes.halfOperators ↔ ∃ m, Map.lookup n C.users = some m ∧ m.halfOper = true) ∧
+    (n ∈ C.modes.voices ↔ ∃ m, Map.lookup n C.users = some m ∧ m.voice = true) := by
+  have r := h.rankMirror ch C hC
+  simp only [← KSet.mem_iff]
+  exact ⟨r.founders n, r.protecteds n, r.operators n, r.halfOperators n, r.voices n⟩
+
+/-- a channel without members exists only if it is preconfigured -/
+theorem empty_only_if_preconfigured {w : World} (h : InvCore w) {ch : Str} {C : Channel}
+    (hC : Map.lookup ch w.channels = some C) (he : ∀ n, ¬ Member w ch n) : C.preconfigured = true := by
+  apply h.noEmptyAdHoc ch C hC
+  apply IP.map_eq_nil_of_lookup_none
+  intro k
+  cases hk : Map.lookup k C.users with
+  | none => rfl
+  | some v =>
+    exact absurd ((Memb.World.memOf_iff w ch k).mpr ⟨C, hC, (Map.contains_iff _ _).mpr ⟨v, hk⟩⟩) (he k)
+
+/-! ### 2. history: who becomes / stops being a member -/
+
+/-- the relation after `n` joined the channels satisfying `accepted` -/
+def Spec.afterJoin (R : Str → Str → Prop) (n : Str) (accepted : Str → Prop) : Str → Str → Prop :=
+  fun ch m => R ch m ∨ (m = n ∧ accepted ch)
+/-- the relation after `n` parted from the channels `chs` -/
+def Spec.afterPart (R : Str → Str → Prop) (n : Str) (chs : List Str) : Str → Str → Prop :=
+  fun ch m => R ch m ∧ ¬ (ch ∈ chs ∧ m = n)
+/-- the relation after the users satisfying `victim` were kicked from `channel` -/
+def Spec.afterKick (R : Str → Str → Prop) (channel : Str) (victim : Str → Prop) : Str → Str → Prop :=
+  fun ch m => R ch m ∧ ¬ (ch = channel ∧ victim m)
+/-- the relation after `n` disconnected -/
+def Spec.afterQuit (R : Str → Str → Prop) (n : Str) : Str → Str → Prop :=
+  fun ch m => R ch m ∧ m ≠ n
+/-- the relation after `old` changed its nickname to the unused `new` -/
+def Spec.afterNick (R : Str → Str → Prop) (old new : Str) : Str → Str → Prop :=
+  fun ch m => if m = new then R ch old else if m = old then False else R ch m
+
+/-- JOIN adds exactly the sender to exactly the listed channels whose admission decision is positive;
+    nothing else changes -/
+theorem join_adds_exactly {cfg : Cfg} {c : Nat} {channels : List Str} {keys : Option (List Str)} {x : Ctx}
+    (h : InvCore x.w) (hl : Live x.w c) (ha : (x.conn c).authenticated = true) :
+    ∃ n u, (x.conn c).nick = some n ∧ Map.lookup n x.w.users = some u ∧
+      ∀ ch m, Member (processJoin cfg c channels keys x).w ch m ↔
+        Spec.afterJoin (Member x.w) n
+          (fun ch => ∃ p, p ∈ (Memb.joinDecisions cfg c channels keys x n u).zip channels ∧
+            p.1.1 = true ∧ p.2 = ch) ch m := by
+  obtain ⟨n, u, hn, hu, e⟩ := join_membership_effect (cfg := cfg) (channels := channels) (keys := keys) h hl ha
+  exact ⟨n, u, hn, hu, e⟩
+
+/-- only listed channels are joined -/
+theorem join_only_listed {ds : List (Bool × Bool)} {channels : List Str} {ch : Str}
+    (hp : ∃ p, p ∈ ds.zip channels ∧ p.1.1 = true ∧ p.2 = ch) : ch ∈ channels := by
+  obtain ⟨p, hp, _, rfl⟩ := hp
+  obtain ⟨a, b⟩ := p
+  exact (List.of_mem_zip hp).2
+
+/-- PART removes exactly the sender from exactly the listed channels -/
+theorem part_removes_exactly {cfg : Cfg} {c : Nat} {channels : List Str} {reason : Option Str} {x : Ctx}
+    (h : InvCore x.w) (hl : Live x.w c) (ha : (x.conn c).authenticated = true) :
+    ∃ n, (x.conn c).nick = some n ∧
+      ∀ ch m, Member (processPart cfg c channels reason x).w ch m ↔
+        Spec.afterPart (Member x.w) n channels ch m :=
+  part_membership_effect h hl ha
+
+/-- KICK removes exactly the listed legitimate victims from exactly the named channel -/
+theorem kick_removes_exactly {cfg : Cfg} {c : Nat} {channel : Str} {kickUsers : List Str}
+    {comment : Option Str} {x : Ctx}
+    (h : InvCore x.w) (hl : Live x.w c) (ha : (x.conn c).authenticated = true) :
+    ∃ n, (x.conn c).nick = some n ∧
+      ∀ ch m, Member (processKick cfg c channel kickUsers comment x).w ch m ↔
+        Spec.afterKick (Member x.w) channel
+          (fun m => m ∈ kickUsers ∧ Memb.KickVictim x.w channel n m) ch m :=
+  kick_membership_effect h hl ha
+
+/-- a disconnect (any `teardown` of a registered connection) removes its user from every channel and
+    changes no other membership -/
+theorem teardown_removes_member_everywhere {w : World} (h : InvCore w) {cn : Conn} (hm : cn ∈ w.conns)
+    (ha : cn.authenticated = true) {n : Str} (hn : cn.nick = some n) (ch m : Str) :
+    Member (teardown w cn.id) ch m ↔ Spec.afterQuit (Member w) n ch m := by
+  obtain ⟨_, _, r3⟩ := teardown_removes_user h hm ha hn
+  obtain ⟨_, k2, k3, _⟩ := teardown_keeps_others h hm ha hn
+  unfold Spec.afterQuit Member
+  rw [Memb.World.memOf_iff, Memb.World.memOf_iff]
+  constructor
+  · rintro ⟨C', hC', hc'⟩
+    obtain ⟨C, hC, hs⟩ := k2 ch C' hC'
+    have hne : m ≠ n := by
+      rintro rfl
+      rw [(r3 ch C' hC').1] at hc'; cases hc'
+    refine ⟨⟨C, hC, ?_⟩, hne⟩
+    unfold Map.contains at hc' ⊢
+    rw [← hs.2.2.2.2.2.2.2.2.2.2.2.2.2.2.1 m hne]; exact hc'
+  · rintro ⟨⟨C, hC, hc⟩, hne⟩
+    cases hC' : Map.lookup ch (teardown w cn.id).channels with
+    | none => exact absurd ((k3 ch C hC hC').2.2 m hc) hne
+    | some C' =>
+      obtain ⟨C0, hC0, hs⟩ := k2 ch C' hC'
+      rw [hC] at hC0; cases hC0
+      refine ⟨C', rfl, ?_⟩
+      unfold Map.contains at hc ⊢
+      rw [hs.2.2.2.2.2.2.2.2.2.2.2.2.2.2.1 m hne]; exact hc
+
+/-- closing a connection that is not registered changes no membership -/
+theorem teardown_unregistered_keeps_membership {w : World} (h : InvCore w) {cn : Conn} (hm : cn ∈ w.conns)
+    (ha : cn.authenticated = false) (ch m : Str) : Member (teardown w cn.id) ch m ↔ Member w ch m := by
+  unfold Member
+  have e : Map.lookup ch (teardown w cn.id).channels = Map.lookup ch w.channels := by
+    rw [(teardown_unauthenticated_noop h hm ha).2.1]
+  rw [Memb.World.memOf_congr e]
+
+/-- NICK of a registered connection: either nothing changes (same nick, or nick in use), or the
+    memberships of the old nickname are carried over to the new one and nothing else changes -/
+theorem nick_renames_member {cfg : Cfg} {c : Nat} {nick : Str} {msg : Message} {x : Ctx}
+    (h : InvCore x.w) (hl : Live x.w c) (ha : (x.conn c).authenticated = true) :
+    ∃ old, (x.conn c).nick = some old ∧
+      ((∀ ch m, Member (processNick cfg c nick msg x).w ch m ↔ Member x.w ch m) ∨
+       (nick ≠ old ∧ Map.lookup nick x.w.users = none ∧
+        ∀ ch m, Member (processNick cfg c nick msg x).w ch m ↔
+          Spec.afterNick (Member x.w) old nick ch m)) := by
+  obtain ⟨hm, hcid⟩ := Reg.Ctx.conn_of_live hl
+  obtain ⟨old, user, hnick, hold, _⟩ := h.authOwns _ hm ha
+  refine ⟨old, hnick, ?_⟩
+  by_cases hne : nick = old
+  · left
+    have : processNick cfg c nick msg x = x := by
+      unfold processNick
+      simp only [ha, Bool.not_true, Bool.false_eq_true, ↓reduceIte, hnick, hne, bne_self_eq_false]
+    rw [this]; exact fun _ _ => Iff.rfl
+  · by_cases hc : Map.contains nick x.w.users = true
+    · left
+      have : (processNick cfg c nick msg x).w = x.w := by
+        unfold processNick
+        have : (nick != old) = true := by simpa using hne
+        simp only [ha, Bool.not_true, Bool.false_eq_true, ↓reduceIte, hnick, this, hc, Ctx.reply_w]
+      rw [this]; exact fun _ _ => Iff.rfl
+    · right
+      have hc' : Map.contains nick x.w.users = false := by simpa using hc
+      refine ⟨hne, (Map.contains_false_iff _ _).mp hc', fun ch m => ?_⟩
+      unfold Member Spec.afterNick
+      rw [IP.nick_rename_memOf (cfg := cfg) (msg := msg) h ha hnick hne hc' hold ch m]
+      by_cases e1 : m = nick
+      · simp [e1]
+      · by_cases e2 : m = old <;> simp [e1, e2]
+
+/-- the commands of a connection that is not registered never touch a channel -/
+theorem unregistered_keeps_membership {cfg : Cfg} {c : Nat} {s : Str} {x : Ctx}
+    (h : InvCore x.w) (hl : Live x.w c) (hu : (x.conn c).authenticated = false) (ch m : Str) :
+    Member (handleLine cfg c s x).w ch m ↔ Member x.w ch m := by
+  unfold Member
+  have e : Map.lookup ch (handleLine cfg c s x).w.channels = Map.lookup ch x.w.channels := by
+    rw [(IP.handleLine_unreg_regEffect (cfg := cfg) (s := s) h hl hu).1]
+  rw [Memb.World.memOf_congr e]
+
+/-- the three query commands themselves change nothing at all -/
+theorem views_are_read_only {cfg : Cfg} {c : Nat} {x : Ctx}
+    (h : InvCore x.w) (hl : Live x.w c) (ha : (x.conn c).authenticated = true)
+    (chs : List Str) (mask : Str) (t : Option Str) (ns : List Str) :
+    (processNames cfg c chs x).w = x.w ∧ (processWho cfg c mask x).w = x.w ∧
+    (processWhois cfg c t ns x).w = x.w :=
+  ⟨processNames_world_unchanged h, processWho_world_unchanged h hl ha, processWhois_world_unchanged h hl ha⟩
+
+/-- "nobody else changes", for the four membership-changing operations: JOIN and PART touch only the
+    sender, KICK only listed nicknames, a disconnect only the disconnecting user -/
+theorem nobody_else_changes {cfg : Cfg} {c : Nat} {x : Ctx}
+    (h : InvCore x.w) (hl : Live x.w c) (ha : (x.conn c).authenticated = true) :
+    ∃ n, (x.conn c).nick = some n ∧
+      (∀ channels keys ch m, m ≠ n →
+        (Member (processJoin cfg c channels keys x).w ch m ↔ Member x.w ch m)) ∧
+      (∀ channels reason ch m, m ≠ n →
+        (Member (processPart cfg c channels reason x).w ch m ↔ Member x.w ch m)) ∧
+      (∀ channel kickUsers comment ch m, m ∉ kickUsers →
+        (Member (processKick cfg c channel kickUsers comment x).w ch m ↔ Member x.w ch m)) := by
+  obtain ⟨n, u, hn, _, _⟩ := Memb.sender_of_auth h hl ha
+  refine ⟨n, hn, ?_, ?_, ?_⟩
+  · intro channels keys ch m hne
+    obtain ⟨n', u', hn', _, e⟩ := join_adds_exactly (cfg := cfg) (channels := channels) (keys := keys) h hl ha
+    rw [hn] at hn'; cases hn'
+    rw [e]; unfold Spec.afterJoin
+    exact ⟨fun hh => hh.elim id (fun hh => absurd hh.1 hne), Or.inl⟩
+  · intro channels reason ch m hne
+    obtain ⟨n', hn', e⟩ := part_removes_exactly (cfg := cfg) (channels := channels) (reason := reason) h hl ha
+    rw [hn] at hn'; cases hn'
+    rw [e]; unfold Spec.afterPart
+    exact ⟨fun hh => hh.1, fun hh => ⟨hh, fun hh' => hne hh'.2⟩⟩
+  · intro channel kickUsers comment ch m hne
+    obtain ⟨n', hn', e⟩ := kick_removes_exactly (cfg := cfg) (channel := channel) (kickUsers := kickUsers)
+      (comment := comment) h hl ha
+    rw [e]; unfold Spec.afterKick
+    exact ⟨fun hh => hh.1, fun hh => ⟨hh, fun hh' => hne hh'.2.1⟩⟩
+
+/-- **Only JOIN, PART, KICK and NICK change the relation in their handler.**  Any other line of a
+    registered connection (any command, or text that is no command at all) leaves every membership
+    as it is.  (QUIT, KILL, DIE and SQUIT only flag connections; the memberships of the users they end
+    are removed by the `teardown` of the settling phase, see `teardown_removes_member_everywhere`.) -/
+theorem membership_changes_only_by {cfg : Cfg} {c : Nat} {s : Str} {x : Ctx}
+    (h : InvCore x.w) (hl : Live x.w c) (ha : (x.conn c).authenticated = true)
+    (hno : ∀ msg cmd, Message.parse s = .ok msg → Command.fromMessage msg = .ok cmd →
+      IP.changesMembership cmd = false) (ch m : Str) :
+    Member (handleLine cfg c s x).w ch m ↔ Member x.w ch m := by
+  unfold Member
+  rw [IP.handleLine_auth_memOf h hl ha hno]
+
+/-- the commands meant by `IP.changesMembership` -/
+theorem changesMembership_iff (cmd : Command) :
+    IP.changesMembership cmd = true ↔
+      (∃ a b, cmd = .JOIN a b) ∨ (∃ a b, cmd = .PART a b) ∨ (∃ a b d, cmd = .KICK a b d) ∨
+      (∃ a, cmd = .NICK a) := by
+  cases cmd <;> simp [IP.changesMembership]
+
+/-! ### 3. the three views -/
+
+/-- is the observer (given by its nick, if it has one) on the channel? -/
+def onChannel (obs : Option Str) (C : Channel) : Bool :=
+  obs.any (fun n => Map.contains n C.users)
+
+/-- NAMES shows member `m`: it is a registered user, and not invisible unless the observer is on the
+    channel -/
+def namesShows (w : World) (obsOn : Bool) (m : Str) : Bool :=
+  (Map.lookup m w.users).any (fun u => !u.modes.invisible || obsOn)
+
+/-- the nicknames NAMES lists for channel `C` to an observer -/
+def namesView (w : World) (obs : Option Str) (C : Channel) : List Str :=
+  (Map.keys C.users).filter (namesShows w (onChannel obs C))
+
+/-- the `(prefix, nick)` entries of the 353 lines -/
+def namesEntries (w : World) (obs : Option Str) (multiPrefix : Bool) (C : Channel) : List (Str × Str) :=
+  C.users.filterMap (fun p =>
+    if namesShows w (onChannel obs C) p.1 then some (p.2.prefixStr multiPrefix, p.1) else none)
+
+/-- WHO shows member `m` to the user `obsUser`: not invisible, or sharing a channel with the observer -/
+def whoShows (w : World) (obsUser : User) (m : Str) : Bool :=
+  match Map.lookup m w.users with
+  | some uu => !uu.modes.invisible || !(KSet.disjoint uu.channels obsUser.channels)
+  | none => false
+
+/-- the nicknames WHO `#channel` lists -/
+def whoView (w : World) (obsUser : User) (C : Channel) : List Str :=
+  (Map.keys C.users).filter (whoShows w obsUser)
+
+/-- the rows (nick, member flags, user record) behind the 352 lines -/
+def whoRows (w : World) (obsUser : User) (C : Channel) : List (Str × ChanUserModes × User) :=
+  C.users.filterMap (fun p =>
+    match Map.lookup p.1 w.users with
+    | some uu => if whoShows w obsUser p.1 then some (p.1, p.2, uu) else none
+    | none => none)
+
+/-- one 352 line -/
+def whoLine (cfg : Cfg) (cn : Conn) (mask : Str) (r : Str × ChanUserModes × User) : Str :=
+  srvLine cfg (RplWhoReply352 cn.clientName mask r.2.2.name r.2.2.hostname cfg.name r.1
+    ((if r.2.2.away.isSome then ['G'] else ['H']) ++ (if r.2.2.modes.isLocalOper then ['*'] else []) ++
+      r.2.1.prefixStr cn.multiPrefix) 0 r.2.2.realname)
+
+/-- WHOIS talks about `au` to `obsUser`: not (invisible and sharing no channel) -/
+def whoisVisible (au obsUser : User) : Bool :=
+  !(au.modes.invisible && KSet.disjoint au.channels obsUser.channels)
+
+/-- the channels WHOIS lists for nick `n` with user record `au`: its non-secret channels -/
+def whoisChannels (w : World) (n : Str) (au : User) : List Str :=
+  au.channels.filter (fun chn =>
+    match Map.lookup chn w.channels with
+    | some ch => !ch.modes.secret && Map.contains n ch.users
+    | none => false)
+
+/-- **NAMES, output.**  For a channel whose member nicknames are non-empty (guaranteed by the NICK
+    validation; the invariant does not record it), the reply of `send_names_from_channel` consists of
+    the 353 lines carrying `namesEntries` in groups of 20 (plus 366 if asked for) when the channel is
+    not secret or the observer is on it, and of nothing otherwise; the nicknames carried are
+    `namesView`. -/
+theorem names_output {cfg : Cfg} {c : Nat} {chname : Str} {C : Channel} {theEnd : Bool} {x : Ctx}
+    (hne : ∀ m, Map.contains m C.users = true → m ≠ []) :
+    (sendNamesFromChannel cfg c chname C theEnd x).direct = x.direct ++
+      (if !C.modes.secret || onChannel (x.conn c).nick C then
+        (chunks 20 (namesEntries x.w (x.conn c).nick (x.conn c).multiPrefix C)).map (fun chunk =>
+          srvLine cfg (RplNameReply353 (x.conn c).clientName (if C.modes.secret then ['@'] else ['='])
+            chname chunk)) ++
+        (if theEnd then [srvLine cfg (RplEndOfNames366 (x.conn c).clientName chname)] else [])
+       else []) ∧
+    (namesEntries x.w (x.conn c).nick (x.conn c).multiPrefix C).map (·.2) = namesView x.w (x.conn c).nick C := by
+  constructor
+  · have hne' : ∀ p, p ∈ C.users → p.1 ≠ [] := fun p hp => hne p.1 (RO.map_contains_of_mem (v := p.2) hp)
+    exact IP.sendNames_direct cfg c chname C theEnd x hne'
+  · unfold namesEntries namesView
+    rw [← IP.filter_keys]
+    apply IP.map_filterMap_eq_filter
+    · intro a b _ hab
+      split at hab
+      · cases hab; rfl
+      · cases hab
+    · intro a _
+      split <;> simp_all
+
+/-- the hypothesis of `names_output` is needed: `send_names_from_channel` drops a member whose nickname
+    is the empty string (the Rust code uses the empty nickname as its "hidden" marker).  NICK validation
+    never accepts such a nickname, but the invariant does not record that. -/
+example :
+    let u : User := { hostname := [], name := [], realname := [], source := [], modes := {},
+                      history := ⟨[], [], []⟩, owner := 1 }
+    let C : Channel := { users := [([], {})] }
+    namesView { users := [([], u)] } none C = [[]] ∧
+    (sendNamesFromChannel {} 1 (str "#c") C false { w := { users := [([], u)] } }).direct = [] := by decide
+
+/-- **NAMES, a member looks.**  An observer that is on the channel sees exactly the members. -/
+theorem names_view_member {w : World} (h : InvCore w) {ch : Str} {C : Channel}
+    (hC : Map.lookup ch w.channels = some C) {obs : Str} (hobs : Map.contains obs C.users = true) :
+    namesView w (some obs) C = Map.keys C.users := by
+  unfold namesView
+  apply List.filter_eq_self.mpr
+  intro m hm
+  have hc : Map.contains m C.users = true := (Map.contains_iff _ _).mpr ((Map.mem_keys_iff _ _).mp hm)
+  obtain ⟨u, hu⟩ := (Map.contains_iff _ _).mp (h.memberIsUser ch C m hC hc)
+  simp [namesShows, hu, onChannel, hobs]
+
+/-- **NAMES, an outsider looks** (at a non-secret channel): it sees only members, and all members
+    that are not invisible. -/
+theorem names_view_outsider {w : World} (h : InvCore w) {ch : Str} {C : Channel}
+    (hC : Map.lookup ch w.channels = some C) (obs : Option Str) (m : Str) :
+    (m ∈ namesView w obs C → Member w ch m) ∧
+    (Member w ch m → (∀ u, Map.lookup m w.users = some u → u.modes.invisible = false) →
+      m ∈ namesView w obs C) := by
+  unfold namesView Member
+  rw [Memb.World.memOf_of_lookup hC]
+  constructor
+  · intro hm
+    exact (Map.contains_iff _ _).mpr ((Map.mem_keys_iff _ _).mp (List.mem_filter.mp hm).1)
+  · intro hc hinv
+    obtain ⟨u, hu⟩ := (Map.contains_iff _ _).mp (h.memberIsUser ch C m hC hc)
+    refine List.mem_filter.mpr ⟨(Map.mem_keys_iff _ _).mpr ((Map.contains_iff _ _).mp hc), ?_⟩
+    simp [namesShows, hu, hinv u hu]
+
+/-- **WHO `#channel`, output.**  When the sender may look at the channel (not secret, or the sender is
+    on it) the reply is one 352 line per row of `whoRows`, then 315; the nicknames are `whoView`. -/
+theorem who_output {cfg : Cfg} {c : Nat} {mask : Str} {x : Ctx} {nick : Str} {user : User} {C : Channel}
+    (hn : (x.conn c).nick = some nick) (hu : Map.lookup nick x.w.users = some user)
+    (hw1 : containsChar '*' mask = false) (hw2 : containsChar '?' mask = false)
+    (hv : validateChannel mask = true) (hC : Map.lookup mask x.w.channels = some C)
+    (hs : (!C.modes.secret || Map.contains nick C.users) = true) :
+    (processWho cfg c mask x).direct = x.direct ++
+      (whoRows x.w user C).map (whoLine cfg (x.conn c) mask) ++
+      [srvLine cfg (RplEndOfWho315 (x.conn c).clientName mask)] ∧
+    (whoRows x.w user C).map (·.1) = whoView x.w user C := by
+  constructor
+  · rw [IP.processWho_channel_direct hn hu hw1 hw2 hv hC hs, srvLine_eq]
+    congr 2
+    unfold whoRows
+    rw [List.map_filterMap]
+    apply IP.filterMap_congr'
+    intro p _
+    unfold whoShows
+    cases Map.lookup p.1 x.w.users with
+    | none => rfl
+    | some uu =>
+      simp only
+      split <;> simp [whoLine, srvLine_eq]
+  · unfold whoRows whoView
+    rw [← IP.filter_keys]
+    apply IP.map_filterMap_eq_filter
+    · intro a b _ hab
+      split at hab
+      · split at hab
+        · cases hab; rfl
+        · cases hab
+      · cases hab
+    · intro a _
+      unfold whoShows
+      cases Map.lookup a.1 x.w.users with
+      | none => rfl
+      | some uu => simp only; split <;> simp_all
+
+/-- **WHO, a member looks.**  A sender that is on the channel gets exactly the members: invisible
+    members share this very channel with the sender. -/
+theorem who_view_member {w : World} (h : InvCore w) {ch : Str} {C : Channel}
+    (hC : Map.lookup ch w.channels = some C) {obs : Str} {obsUser : User}
+    (hou : Map.lookup obs w.users = some obsUser) (hobs : Map.contains obs C.users = true) :
+    whoView w obsUser C = Map.keys C.users := by
+  unfold whoView
+  apply List.filter_eq_self.mpr
+  intro m hm
+  have hc : Map.contains m C.users = true := (Map.contains_iff _ _).mpr ((Map.mem_keys_iff _ _).mp hm)
+  obtain ⟨u, hu⟩ := (Map.contains_iff _ _).mp (h.memberIsUser ch C m hC hc)
+  have h1 : ch ∈ u.channels := (KSet.mem_iff _ _).mp ((h.memberSym m u ch hu).mpr ⟨C, hC, hc⟩)
+  have h2 : KSet.mem ch obsUser.channels = true := (h.memberSym obs obsUser ch hou).mpr ⟨C, hC, hobs⟩
+  simp [whoShows, hu, IP.disjoint_false_of_common h1 h2]
+
+/-- **WHO, an outsider looks**: only members, and all members that are not invisible. -/
+theorem who_view_outsider {w : World} (h : InvCore w) {ch : Str} {C : Channel}
+    (hC : Map.lookup ch w.channels = some C) (obsUser : User) (m : Str) :
+    (m ∈ whoView w obsUser C → Member w ch m) ∧
+    (Member w ch m → (∀ u, Map.lookup m w.users = some u → u.modes.invisible = false) →
+      m ∈ whoView w obsUser C) := by
+  unfold whoView Member
+  rw [Memb.World.memOf_of_lookup hC]
+  constructor
+  · intro hm
+    exact (Map.contains_iff _ _).mpr ((Map.mem_keys_iff _ _).mp (List.mem_filter.mp hm).1)
+  · intro hc hinv
+    obtain ⟨u, hu⟩ := (Map.contains_iff _ _).mp (h.memberIsUser ch C m hC hc)
+    refine List.mem_filter.mpr ⟨(Map.mem_keys_iff _ _).mpr ((Map.contains_iff _ _).mp hc), ?_⟩
+    simp [whoShows, hu, hinv u hu]
+
+/-- **WHOIS, output.**  For a target that is visible to the asker, the 319 lines carry, in groups of
+    30, one entry per channel of `whoisChannels` (with the member's prefix); an invisible target
+    sharing no channel with the asker produces no line at all. -/
+theorem whois_output {cfg : Cfg} {cn : Conn} {user : User} {nick : Str} {x : Ctx} {au : User}
+    (hau : Map.lookup nick x.w.users = some au) :
+    (whoisVisible au user = false → whoisOne cfg cn user nick x = x) ∧
+    (whoisVisible au user = true →
+      ∃ pre post : List Str,
+        (whoisOne cfg cn user nick x).direct = x.direct ++ pre ++
+          (chunks 30 (IP.whoisShown x.w cn.multiPrefix nick au)).map
+            (fun chunk => srvLine cfg (RplWhoIsChannels319 cn.clientName nick chunk)) ++ post ∧
+        pre = (if au.modes.registered then [srvLine cfg (RplWhoIsRegNick307 cn.clientName nick)] else []) ++
+          [srvLine cfg (RplWhoIsUser311 cn.clientName nick au.name au.hostname au.realname),
+           srvLine cfg (RplWhoIsServer312 cn.clientName nick cfg.name cfg.info)] ++
+          (if au.modes.isLocalOper then [srvLine cfg (RplWhoIsOperator313 cn.clientName nick)] else []) ∧
+        post = [srvLine cfg (RplwhoIsIdle317 cn.clientName nick 0 0)] ++
+          (if au.modes.isLocalOper then
+            [srvLine cfg (RplWhoIsHost378 cn.clientName nick au.hostname),
+             srvLine cfg (RplWhoIsModes379 cn.clientName nick au.modes.render)] else [])) ∧
+    (IP.whoisShown x.w cn.multiPrefix nick au).map (·.2) = whoisChannels x.w nick au := by
+  refine ⟨?_, ?_, ?_⟩
+  · intro hv
+    apply IP.whoisOne_hidden hau
+    unfold whoisVisible at hv
+    cases h1 : (au.modes.invisible && KSet.disjoint au.channels user.channels)
+    · rw [h1] at hv; cases hv
+    · rfl
+  · intro hv
+    have hv' : (au.modes.invisible && KSet.disjoint au.channels user.channels) = false := by
+      unfold whoisVisible at hv
+      cases h1 : (au.modes.invisible && KSet.disjoint au.channels user.channels)
+      · rfl
+      · rw [h1] at hv; cases hv
+    refine ⟨_, _, ?_, rfl, rfl⟩
+    rw [IP.whoisOne_direct hau hv']
+    simp only [List.append_assoc]
+  · unfold IP.whoisShown whoisChannels
+    refine (IP.map_filterMap_eq_filter au.channels _ (fun b : Option Str × Str => b.2) id _
+      (by
+        intro a b _ hab
+        cases hl : Map.lookup a x.w.channels with
+        | none => rw [hl] at hab; cases hab
+        | some ch =>
+          rw [hl] at hab
+          simp only at hab
+          split at hab
+          · cases hl2 : Map.lookup nick ch.users with
+            | none => rw [hl2] at hab; cases hab
+            | some chum => rw [hl2] at hab; cases hab; rfl
+          · cases hab)
+      (by
+        intro a _
+        cases Map.lookup a x.w.channels with
+        | none => rfl
+        | some ch =>
+          simp only
+          cases ch.modes.secret with
+          | true => rfl
+          | false =>
+            simp only [Bool.not_false, ↓reduceIte, Bool.true_and, Map.contains]
+            cases Map.lookup nick ch.users <;> rfl)).trans (List.map_id _)
+
+/-- **WHOIS lists the membership.**  For a non-secret channel `ch`, WHOIS on `n` lists `ch` iff `n` is a
+    member of `ch`.  (Secret channels are never listed by WHOIS, not even to their own members.) -/
+theorem whois_lists_membership {w : World} (h : InvCore w) {n : Str} {au : User}
+    (hau : Map.lookup n w.users = some au) {ch : Str} :
+    ch ∈ whoisChannels w n au ↔
+      (Member w ch n ∧ ∃ C, Map.lookup ch w.channels = some C ∧ C.modes.secret = false) := by
+  unfold whoisChannels Member
+  rw [List.mem_filter, ← KSet.mem_iff, h.memberSym n au ch hau, Memb.World.memOf_iff]
+  constructor
+  · rintro ⟨⟨C, hC, hc⟩, hm⟩
+    rw [hC] at hm
+    simp only [Bool.and_eq_true, Bool.not_eq_eq_eq_not, Bool.not_true] at hm
+    exact ⟨⟨C, hC, hc⟩, C, hC, hm.1⟩
+  · rintro ⟨⟨C, hC, hc⟩, C', hC', hs⟩
+    rw [hC] at hC'; cases hC'
+    refine ⟨⟨C, hC, hc⟩, ?_⟩
+    rw [hC]; simp [hs, hc]
+
+/-- **The three views agree.**  Let the observer `obs` be on the non-secret channel `ch`.  Then NAMES
+    and WHO both list exactly the members of `ch`, every member is visible to the observer in WHOIS,
+    and WHOIS on a nickname lists `ch` exactly for the members. -/
+theorem views_agree_for_members {w : World} (h : InvCore w) {ch : Str} {C : Channel}
+    (hC : Map.lookup ch w.channels = some C) (hsec : C.modes.secret = false)
+    {obs : Str} {obsUser : User} (hou : Map.lookup obs w.users = some obsUser)
+    (hobs : Map.contains obs C.users = true) :
+    namesView w (some obs) C = Map.keys C.users ∧
+    whoView w obsUser C = Map.keys C.users ∧
+    (∀ m, m ∈ Map.keys C.users ↔ Member w ch m) ∧
+    (∀ m au, Map.lookup m w.users = some au →
+      ((m ∈ Map.keys C.users → whoisVisible au obsUser = true) ∧
+       (ch ∈ whoisChannels w m au ↔ m ∈ Map.keys C.users))) := by
+  have hmem : ∀ m, m ∈ Map.keys C.users ↔ Member w ch m := by
+    intro m
+    unfold Member
+    rw [Memb.World.memOf_of_lookup hC, Map.mem_keys_iff, Map.contains_iff]
+  refine ⟨names_view_member h hC hobs, who_view_member h hC hou hobs, hmem, ?_⟩
+  intro m au hau
+  constructor
+  · intro hm
+    have hc : Map.contains m C.users = true := (Map.contains_iff _ _).mpr ((Map.mem_keys_iff _ _).mp hm)
+    have h1 : ch ∈ au.channels := (KSet.mem_iff _ _).mp ((h.memberSym m au ch hau).mpr ⟨C, hC, hc⟩)
+    have h2 : KSet.mem ch obsUser.channels = true := (h.memberSym obs obsUser ch hou).mpr ⟨C, hC, hobs⟩
+    simp [whoisVisible, IP.disjoint_false_of_common h1 h2]
+  · rw [whois_lists_membership h hau, hmem]
+    exact ⟨fun hh => hh.1, fun hh => ⟨hh, C, hC, hsec⟩⟩
+
+/-! ### non-vacuity (`RO.Ex.w`: alice — invisible — and bob on `#c`; `Memb.Ex`: a, b joining `#c`) -/
+
+example : InvCore RO.Ex.w ∧ Member RO.Ex.w RO.Ex.chan RO.Ex.alice ∧ Member RO.Ex.w RO.Ex.chan RO.Ex.bob ∧
+    ¬ Member RO.Ex.w RO.Ex.chan (str "zed") := ⟨RO.Ex.inv, by decide, by decide, by decide⟩
+-- a member sees both, an outsider does not see the invisible alice
+example : namesView RO.Ex.w (some RO.Ex.bob) RO.Ex.cChan = [RO.Ex.alice, RO.Ex.bob] ∧
+    namesView RO.Ex.w (some (str "zed")) RO.Ex.cChan = [RO.Ex.bob] ∧
+    namesView RO.Ex.w none RO.Ex.cChan = [RO.Ex.bob] := by decide
+example : whoView RO.Ex.w RO.Ex.uBob RO.Ex.cChan = [RO.Ex.alice, RO.Ex.bob] ∧
+    whoView RO.Ex.w { RO.Ex.uBob with channels := [] } RO.Ex.cChan = [RO.Ex.bob] := by decide
+example : whoisChannels RO.Ex.w RO.Ex.alice RO.Ex.uAlice = [RO.Ex.chan] ∧
+    whoisVisible RO.Ex.uAlice RO.Ex.uBob = true ∧
+    whoisVisible RO.Ex.uAlice { RO.Ex.uBob with channels := [] } = false := by decide
+example : ((processNames RO.Ex.cfg 2 [RO.Ex.chan] RO.Ex.x).direct.map String.ofList).take 1 =
+    [":irc.irc 353 bob = #c :~alice +bob"] := by decide
+example : ((processWho RO.Ex.cfg 2 RO.Ex.chan RO.Ex.x).direct.map String.ofList).length = 3 := by decide
+-- history: JOIN / PART / KICK on `Memb.Ex`
+example : ¬ Member Memb.Ex.w0 Memb.Ex.hc Memb.Ex.na ∧ Member Memb.Ex.w1 Memb.Ex.hc Memb.Ex.na ∧
+    ¬ Member Memb.Ex.w1 Memb.Ex.hc Memb.Ex.nb ∧ Member Memb.Ex.w2 Memb.Ex.hc Memb.Ex.nb := by decide
+example : ¬ Member (processPart Memb.Ex.cfg0 1 [Memb.Ex.hc] none (Memb.Ex.ctx Memb.Ex.w2)).w Memb.Ex.hc Memb.Ex.na ∧
+    Member (processPart Memb.Ex.cfg0 1 [Memb.Ex.hc] none (Memb.Ex.ctx Memb.Ex.w2)).w Memb.Ex.hc Memb.Ex.nb := by
+  decide
+-- MODE / TOPIC / PRIVMSG ... change no membership
+example : (handleLine Modes.Ex.cfgE 1 (str "MODE #c +tl 5") (Modes.Ex.ctx Modes.Ex.w0)).w.channels ≠
+      Modes.Ex.w0.channels ∧
+    Member (handleLine Modes.Ex.cfgE 1 (str "MODE #c +tl 5") (Modes.Ex.ctx Modes.Ex.w0)).w Modes.Ex.hc Modes.Ex.na ∧
+    ¬ Member (handleLine Modes.Ex.cfgE 1 (str "MODE #c +tl 5") (Modes.Ex.ctx Modes.Ex.w0)).w Modes.Ex.hc Modes.Ex.nb := by
+  decide
+-- NICK: the membership moves to the new nickname
+example : Member (processNick {} 1 (str "b") (Reg.exMsg "b") { w := Reg.exW6 }).w (str "#c") (str "b") ∧
+    ¬ Member (processNick {} 1 (str "b") (Reg.exMsg "b") { w := Reg.exW6 }).w (str "#c") (str "a") ∧
+    Member Reg.exW6 (str "#c") (str "a") := by decide
+-- disconnect: gone from the channel
+example : Member Tear.exWorld (str "#a") (str "a") ∧ ¬ Member (teardown Tear.exWorld 1) (str "#a") (str "a") := by
+  decide
+
+/-! ### reachable worlds -/
+section Reachable
+
+theorem reachable_membership_symmetric {cfg : Cfg} {evs : List Event} (hs : SchedAll cfg evs) {n : Str}
+    {u : User} (hu : Map.lookup n (run cfg evs).users = some u) (ch : Str) :
+    ch ∈ u.channels ↔ Member (run cfg evs) ch n :=
+  membership_symmetric (inv_run hs).toInvCore hu ch
+
+theorem reachable_members_are_users {cfg : Cfg} {evs : List Event} (hs : SchedAll cfg evs) {ch n : Str}
+    (hm : Member (run cfg evs) ch n) : ∃ u, Map.lookup n (run cfg evs).users = some u ∧ ch ∈ u.channels :=
+  members_are_users (inv_run hs).toInvCore hm
+
+theorem reachable_views_agree {cfg : Cfg} {evs : List Event} (hs : SchedAll cfg evs) {ch : Str} {C : Channel}
+    (hC : Map.lookup ch (run cfg evs).channels = some C) (hsec : C.modes.secret = false)
+    {obs : Str} {obsUser : User} (hou : Map.lookup obs (run cfg evs).users = some obsUser)
+    (hobs : Map.contains obs C.users = true) :
+    namesView (run cfg evs) (some obs) C = Map.keys C.users ∧
+    whoView (run cfg evs) obsUser C = Map.keys C.users ∧
+    (∀ m, m ∈ Map.keys C.users ↔ Member (run cfg evs) ch m) ∧
+    (∀ m au, Map.lookup m (run cfg evs).users = some au →
+      ((m ∈ Map.keys C.users → whoisVisible au obsUser = true) ∧
+       (ch ∈ whoisChannels (run cfg evs) m au ↔ m ∈ Map.keys C.users))) :=
+  views_agree_for_members (inv_run hs).toInvCore hC hsec hou hobs
+
+end Reachable
 
 end Irc.C04
